@@ -71,7 +71,7 @@ func genC01Case() *rapid.Generator[C01Case] {
 		for gi := 0; gi < g; gi++ {
 			seq := 0
 			opGen := rapid.Custom(func(t *rapid.T) C01Op {
-				k := rapid.SampledFrom([]string{"enq", "enq", "enq", "enqb", "enqb", "deq", "deq", "deq", "ack", "ack", "nack", "dead", "ackb", "nackb", "cancel", "requeue", "deldead", "ckpt"}).Draw(t, "k")
+				k := rapid.SampledFrom([]string{"enq", "enq", "enq", "enqb", "enqb", "deq", "deq", "deq", "ack", "ack", "nack", "dead", "ackb", "nackb", "ackbx", "nackbx", "cancel", "requeue", "deldead", "ckpt"}).Draw(t, "k")
 				if k == "cancel" && drop == "drop_oldest" {
 					k = "nack" // a cancel of a message that may have been evicted has no predictable outcome
 				}
@@ -270,6 +270,13 @@ func TestChild_C01_Store(t *testing.T) {
 				case "deldead":
 					r, err := store.DeleteDead(DeadDeleteRequest{IDs: pick})
 					done.Err, done.N = errClass(err), r.Deleted
+				case "ackbx":
+					// a batch naming only lease ids nobody holds: changes nothing
+					_, err := store.AckBatch([]string{fmt.Sprintf("lease_unknown_%d_%d", g, i)})
+					done.Err = errClass(err)
+				case "nackbx":
+					_, err := store.NackBatch([]string{fmt.Sprintf("lease_unknown_%d_%d", g, i), "lease_0000000000000000"}, 0)
+					done.Err = errClass(err)
 				case "ckpt":
 					_ = store.checkpointPassive()
 				}
